@@ -189,9 +189,10 @@ theorem extract_j_coef (B : Basis K d) (z : Fin (d * d)) (s : K) (hB : ONH0 B z 
     field_simp
     ring
 
-/-- with the proposed patch (whole basis, `δ` on the identity element) every coefficient is the right one:
-`tr(J B_a)` — including the identity component. -/
-theorem extract_j_coef_fixed (B : Basis K d) (z : Fin (d * d)) (s : K) (hB : ONH0 B z s)
+/-- with the loop of `calc_j_mat` (whole basis, `δ = 1` exactly on the identity element) every coefficient is the
+right one: `tr(J B_a)` — including the identity component (this is what the D12 repair restored; with the
+former range `basis[1:]` the identity component was lost). -/
+theorem extract_j_coef_all (B : Basis K d) (z : Fin (d * d)) (s : K) (hB : ONH0 B z s)
     (h j : Mat K d d) (k : Mat K (d * d - 1) (d * d - 1)) (hh : h.toMᴴ = h.toM) (hj : j.toMᴴ = j.toM)
     (a : Fin (d * d)) :
     jCoef B (cbFromHjk B h j k) a (decide (a.val = 0)) = (j.toM * Bm B a).trace := by
@@ -206,21 +207,10 @@ theorem extract_j_coef_fixed (B : Basis K d) (z : Fin (d * d)) (s : K) (hB : ONH
   · have : a.val ≠ 0 := fun h0 => ha (Fin.ext (h0.trans hB.z0.symm))
     simp [this, hB.trace_B, ha]
 
-/-- D12, precise form: as coded (`enumerate(basis[1:])`, `delta = 1 if alpha == 0`) the element `basis[1]`
-receives half of its coefficient (and `basis[0]` is never visited: `calcJMatCb` sums over `suc a` only). -/
-theorem calcJMat_coded_coef (B : Basis K d) (z : Fin (d * d)) (s : K) (hB : ONH0 B z s)
-    (h j : Mat K d d) (k : Mat K (d * d - 1) (d * d - 1)) (hh : h.toMᴴ = h.toM) (hj : j.toMᴴ = j.toM)
-    (a : Fin (d * d - 1)) :
-    jCoef B (cbFromHjk B h j k) (suc a) (decide (a.val = 0)) =
-      (j.toM * Bm B (suc a)).trace / (if a.val = 0 then 2 else 1) := by
-  rw [extract_j_coef B z s hB h j k hh hj, hB.trace_suc]
-  by_cases ha : a.val = 0
-  · simp [ha]; norm_num
-  · simp [ha]
 end extractthm
 
 
-/-! ## matrix-level extraction, the D12 witness, the exponential -/
+/-! ## matrix-level extraction, parts sum, the exponential -/
 section matthm
 variable {K : Type} [Field K] [StarRing K] [CharZero K] [HasI K] {d : Nat}
 
@@ -242,33 +232,32 @@ theorem extract_h_of_rebuild (B : Basis K d) (z : Fin (d * d)) (s : K) (hB : ONH
   congr 1
   ring
 
-/-- C18 `extract_rebuild` (J) with the proposed patch (`_partial`: about `calcJMatFixedCb`, not the coded
-`calc_j_mat`, for which the statement is false — `extract_rebuild_j_fails`): the patched `calc_j_mat`
-(whole basis) returns `J`. -/
-theorem extract_j_of_rebuild_fixed_partial (B : Basis K d) (z : Fin (d * d)) (s : K) (hB : ONH0 B z s)
+/-- C18 `extract_rebuild` (J): `calc_j_mat` of the generator rebuilt from Hermitian `(H, J, K)` returns `J`
+(whole matrix, identity component included). -/
+theorem extract_j_of_rebuild (B : Basis K d) (z : Fin (d * d)) (s : K) (hB : ONH0 B z s)
     (h j : Mat K d d) (k : Mat K (d * d - 1) (d * d - 1)) (hh : h.toMᴴ = h.toM) (hj : j.toMᴴ = j.toM) :
-    (calcJMatFixedCb B (cbFromHjk B h j k)).toM = j.toM := by
-  rw [calcJMatFixedCb_toM]
-  simp only [extract_j_coef_fixed B z s hB h j k hh hj]
+    (calcJMatCb B (cbFromHjk B h j k)).toM = j.toM := by
+  rw [calcJMatCb_toM]
+  simp only [extract_j_coef_all B z s hB h j k hh hj]
   exact (complete_of_onh0 B z s hB j.toM).symm
 
-/-- C18 `parts_sum` with the proposed patch (`_partial`: uses `calcJMatFixedCb`; with the coded `calc_j_mat` the
-statement is false — `parts_sum_fails`): for every generator rebuilt from Hermitian `(H, J, K)` the h-, j- and
-k-parts computed from the extracted matrices act exactly as the generator itself, on every `ρ`, in every
-dimension. (That every Hermiticity-preserving generator is of this form is not formalised.) -/
-theorem parts_sum_fixed_partial (B : Basis K d) (z : Fin (d * d)) (s : K) (hB : ONH0 B z s)
+/-- C18 `parts_sum`: for every generator rebuilt from Hermitian `(H, J, K)` the h-, j- and k-parts computed
+from the extracted matrices (`calc_h_part + calc_j_part + calc_k_part`, comp basis) act exactly as the generator
+itself, on every `ρ`, in every dimension. (That every Hermiticity-preserving generator is of the form
+`rebuild(H, J, K)` is not formalised; the oracle checks the clause on generic real `hs` as well.) -/
+theorem parts_sum (B : Basis K d) (z : Fin (d * d)) (s : K) (hB : ONH0 B z s)
     (hii : (ii : K) * ii = -1)
     (h j : Mat K d d) (k : Mat K (d * d - 1) (d * d - 1)) (hh : h.toMᴴ = h.toM) (hj : j.toMᴴ = j.toM)
     (rho : Mat K d d) :
     let L := cbFromHjk B h j k
-    (act (((hPart (calcHMatCb B L)).add (jPart (calcJMatFixedCb B L))).add (kPart B (calcKMatCb B L))) rho).toM
+    (act (((hPart (calcHMatCb B L)).add (jPart (calcJMatCb B L))).add (kPart B (calcKMatCb B L))) rho).toM
       = (act L rho).toM := by
   intro L
   have hc : star (h.toM.trace / (d : K)) = h.toM.trace / (d : K) := by
     rw [star_div₀, ← Matrix.trace_conjTranspose, hh, star_natCast]
   rw [act_add, act_add, act_hPart, act_jPart, act_kPart, act_cbFromHjk,
     extract_k_of_rebuild B z s hB h j k hh hj, extract_h_of_rebuild B z s hB hii h j k hh hj,
-    extract_j_of_rebuild_fixed_partial B z s hB h j k hh hj]
+    extract_j_of_rebuild B z s hB h j k hh hj]
   congr 2
   rw [Matrix.conjTranspose_sub, Matrix.conjTranspose_smul, Matrix.conjTranspose_one, hc, hh]
   simp only [Matrix.sub_mul, Matrix.mul_sub, Matrix.smul_mul, Matrix.mul_smul, Matrix.one_mul,
@@ -276,49 +265,6 @@ theorem parts_sum_fixed_partial (B : Basis K d) (z : Fin (d * d)) (s : K) (hB : 
   congr 1
   abel
 
-/-- D12 on the identity dissipator: for EVERY dimension and every admissible basis the coded `calc_j_mat`
-returns 0 for the generator rebuilt from `(H, J, K) = (0, 1, 0)` … -/
-theorem calcJMat_coded_identity (B : Basis K d) (z : Fin (d * d)) (s : K) (hB : ONH0 B z s) :
-    (calcJMatCb B (cbFromHjk B Mat.zero Mat.one Mat.zero)).toM = 0 := by
-  rw [calcJMatCb_toM]
-  apply Finset.sum_eq_zero; intro a _
-  rw [calcJMat_coded_coef B z s hB _ _ _ (by simp) (by simp)]
-  simp [hB.trace_suc]
-
-/-- … so `extract ∘ rebuild` is NOT the identity on `J` (negation witness for the `calc_j_mat` clause). -/
-theorem extract_rebuild_j_fails (B : Basis K d) (z : Fin (d * d)) (s : K) (hB : ONH0 B z s) :
-    calcJMatCb B (cbFromHjk B Mat.zero Mat.one Mat.zero) ≠ Mat.one := by
-  intro h
-  have h1 := calcJMat_coded_identity B z s hB
-  rw [h, Mat.toM_one] at h1
-  have := congrFun (congrFun h1 (p1 z)) (p1 z)
-  simp at this
-
-/-- … and the h-, j- and k-parts computed by the coded extraction do NOT sum to the whole
-(negation witness for the `parts_sum` clause, every dimension, every admissible basis). -/
-theorem parts_sum_fails (B : Basis K d) (z : Fin (d * d)) (s : K) (hB : ONH0 B z s)
-    (hii : (ii : K) * ii = -1) :
-    let L := cbFromHjk B Mat.zero Mat.one Mat.zero
-    ((hPart (calcHMatCb B L)).add (jPart (calcJMatCb B L))).add (kPart B (calcKMatCb B L)) ≠ L := by
-  intro L hsum
-  have hH : calcHMatCb B L = Mat.zero := by
-    apply eq_zero_of_toM
-    rw [calcHMatCb_toM]
-    apply Finset.sum_eq_zero; intro a _
-    rw [extract_h_coef B z s hB hii _ _ _ (by simp) (by simp)]
-    simp
-  have hJ : calcJMatCb B L = Mat.zero := eq_zero_of_toM _ (calcJMat_coded_identity B z s hB)
-  have hK : calcKMatCb B L = Mat.zero := extract_k_of_rebuild B z s hB _ _ _ (by simp) (by simp)
-  have hact := congrArg (fun M => (act M (Mat.one : Mat K d d)).toM) hsum
-  simp only [hH, hJ, hK, L] at hact
-  rw [act_add, act_add, act_hPart, act_jPart, act_kPart, act_cbFromHjk] at hact
-  simp only [Mat.toM_zero, Mat.toM_one, Matrix.zero_mul, Matrix.mul_zero, sub_self, smul_zero,
-    add_zero, Matrix.conjTranspose_zero, Matrix.conjTranspose_one, Matrix.mul_one, zero_add,
-    Mat.get_ofFn, Mat.zero, zero_smul, Finset.sum_const_zero] at hact
-  have := congrFun (congrFun hact (p1 z)) (p1 z)
-  simp at this
-  have h2 : (1 + 1 : K) ≠ 0 := by norm_num
-  exact h2 this.symm
 end matthm
 
 section expthm
@@ -364,13 +310,9 @@ theorem jump_operators_gksl_fails :
   rw [e1, e2] at h1
   norm_num at h1
 
-/-- the D12 witness instantiated: in dimension 1 the coded `calc_j_mat` of the generator `ρ ↦ 2ρ`
-(`J = 1`) is not `J`. -/
-example : calcJMatCb basis1 (cbFromHjk basis1 Mat.zero Mat.one Mat.zero) ≠ Mat.one :=
-  extract_rebuild_j_fails basis1 _ 1 onh0_basis1
-
-example : (calcJMatFixedCb basis1 (cbFromHjk basis1 Mat.zero Mat.one Mat.zero)).toM = (Mat.one : Mat ℂ 1 1).toM :=
-  extract_j_of_rebuild_fixed_partial basis1 _ 1 onh0_basis1 _ _ _ (by simp) (by simp)
+/-- `extract_j_of_rebuild` instantiated: in dimension 1 `calc_j_mat` of the generator `ρ ↦ 2ρ` (`J = 1`) is `J`. -/
+example : (calcJMatCb basis1 (cbFromHjk basis1 Mat.zero Mat.one Mat.zero)).toM = (Mat.one : Mat ℂ 1 1).toM :=
+  extract_j_of_rebuild basis1 _ 1 onh0_basis1 _ _ _ (by simp) (by simp)
 end examples
 
 end QM.C18
